@@ -6,6 +6,7 @@ Line protocol of engine `filter` (property C02).
   filter test <filters> <info> <rec> <T|F isRedirect> <tables>
   filter build <22 option tokens>
   filter web <filters> <T|F strong> <T|F robots> <rec> <info> <robots outcome> <resps> <tables>
+      (resps: `;`-separated `A` | `F` | `D:<info>@<robots outcome for that target>`)
   filter ftp <filters> <rec> <info> <shape> <perm probe> <tables>
 
 str = dot-separated hex (`-` empty); list of str = `/`-separated (`~` empty);
@@ -147,21 +148,25 @@ def encEv : Ev → String
 def encEvs (l : List Ev) : String :=
   if l.isEmpty then "-" else ";".intercalate (l.map encEv)
 
-def decResp? (s : String) : Option Resp :=
-  if s == "A" then some .retrySame
-  else if s == "F" then some .finish
-  else if s.startsWith "D:" then (decInfo? (s.drop 2).toString).map .redirect
-  else none
-
-def decResps? (s : String) : Option (List Resp) :=
-  if s == "~" then some [] else (s.splitOn ";").mapM decResp?
-
 def decRobots? (s : String) : Option RobotsOutcome :=
   match s with
   | "CT" => some (.cached true) | "CF" => some (.cached false)
   | "FT" => some (.fetched true) | "FF" => some (.fetched false)
   | "E" => some .error
   | _ => none
+
+/-- `A` | `F` | `D:<info>@<robots outcome>` -/
+def decResp? (s : String) : Option Resp :=
+  if s == "A" then some .retrySame
+  else if s == "F" then some .finish
+  else if s.startsWith "D:" then
+    match ((s.drop 2).toString).splitOn "@" with
+    | [i, rb] => do pure (.redirect (← decInfo? i) (← decRobots? rb))
+    | _ => none
+  else none
+
+def decResps? (s : String) : Option (List Resp) :=
+  if s == "~" then some [] else (s.splitOn ";").mapM decResp?
 
 def decShape? (s : String) : Option FtpShape :=
   match s.splitOn "!" with
